@@ -379,9 +379,9 @@ fn derived_return(r: &mut Rng, c: &Case, sum: &Val) -> Outp {
     // coin: around the minimum, around the whole sum, or in between
     let m = { o.val.coin = sum.coin / 2; min_ada_of(c, &o).unwrap_or(1_000_000) };
     o.val.coin = match r.below(10) {
-        0 => m, 1 => m.saturating_sub(1), 2 => m + 1, 3 => sum.coin, 4 => sum.coin.saturating_add(1), 5 => sum.coin.saturating_sub(1),
+        0 => m, 1 => m.saturating_sub(1), 2 => m.saturating_add(1), 3 => sum.coin, 4 => sum.coin.saturating_add(1), 5 => sum.coin.saturating_sub(1),
         6 => 0, 7 => r.u64_edge(),
-        _ => if sum.coin > m { m + r.below(sum.coin - m + 1) } else { sum.coin / 2 },
+        _ => if sum.coin > m { m + r.below((sum.coin - m).saturating_add(1)) } else { sum.coin / 2 },
     };
     if let Some(m2) = min_ada_of(c, &o) { if r.chance(1, 5) { o.val.coin = if r.chance(1, 2) { m2 } else { m2.saturating_sub(1) }; } }
     o
@@ -391,7 +391,7 @@ fn derived_total(r: &mut Rng, c: &Case, sum: &Val) -> u64 {
     let m = min_ada_of(c, &probe).unwrap_or(1_000_000);
     match r.below(12) {
         0 => sum.coin, 1 => sum.coin.saturating_add(1), 2 => sum.coin.saturating_sub(1), 3 => sum.coin.saturating_sub(m),
-        4 => sum.coin.saturating_sub(m).saturating_add(1), 5 => sum.coin.saturating_sub(m + 1), 6 => 0, 7 => r.u64_edge(), 8 => 1,
+        4 => sum.coin.saturating_sub(m).saturating_add(1), 5 => sum.coin.saturating_sub(m.saturating_add(1)), 6 => 0, 7 => r.u64_edge(), 8 => 1,
         _ => r.below(sum.coin.saturating_add(1).max(1)),
     }
 }
@@ -493,7 +493,7 @@ fn gen(dir: &str) {
             let mut probe = c.clone(); fill_oracles(&mut probe);
             if let Op::P(_, _, true, Some(f)) = &probe.ops[1] {
                 let req = (*f as u128 * p as u128 / 100 + 1) as u64;
-                c.ops = mk(match r.below(3) { 0 => req, 1 => req + 1, _ => req - 1 });
+                c.ops = mk(match r.below(3) { 0 => req, 1 => req.saturating_add(1), _ => req.saturating_sub(1) });
             }
         }
         emit(&mut out, c);
